@@ -874,6 +874,7 @@ func (e *Executor) Execute(ctx context.Context, m File) (err error) {
 	}
 	for _, stmt := range stmts[r.Applied:] {
 		e.log.Log(LogStmt{SQL: stmt.Text, Stmt: stmt})
+		verifPoint("before_exec")
 		if _, err = e.drv.ExecContext(ctx, stmt.Text); err != nil {
 			e.log.Log(LogError{SQL: stmt.Text, Stmt: stmt, Error: err})
 			r.done()
@@ -881,6 +882,7 @@ func (e *Executor) Execute(ctx context.Context, m File) (err error) {
 			r.Error = err.Error()
 			return &StmtExecError{File: m, Stmt: stmt, Version: r.Version, Err: err}
 		}
+		verifPoint("after_exec")
 		r.PartialHashes = append(r.PartialHashes, "h1:"+sums[r.Applied])
 		r.Applied++
 		// In case retry attempts succeeded,
@@ -903,9 +905,11 @@ func (e *Executor) Execute(ctx context.Context, m File) (err error) {
 func (e *Executor) writeRevision(ctx context.Context, r *Revision) error {
 	r.ExecutedAt = time.Now()
 	r.OperatorVersion = e.operator
+	verifPoint("before_write")
 	if err := e.rrw.WriteRevision(ctx, r); err != nil {
 		return &WriteRevisionError{Err: err, Revision: r}
 	}
+	verifPoint("after_write")
 	return nil
 }
 
